@@ -716,6 +716,104 @@ const int B = 7 % (Z * 3);
     I3 = I0 / 0;
 ''')
 
+# --- TH12+ MSG furigana lines in every position relative to other text, across several scripts
+for fmt in ('MSG_11', 'MSG_12', 'MSG_17'):
+    add('feature/%s-furigana-across-scripts' % fmt.lower(), fmt, full='''
+#pragma mapfile "map/any.msgm"
+
+meta {
+    table: {
+        0: {script: "first", flags: 256},
+        1: {script: "second", flags: 256},
+        2: {script: "third", flags: 0},
+    }
+}
+
+script first {
+    textAdd("plain line");
+    textAdd("|4,9,abcdefghijklmn");
+}
+
+script second {
+    textAdd("ABCD_EFGHIJK");
++10:
+    textAdd("|0,3,furi");
+    textAdd("after furigana");
+    textAdd("|1,2,xy");
+}
+
+script third {
+    textAdd("x");
+    textAdd("|2,5,last one is furigana");
+}
+''')
+# --- TH10 ECL: constructs the stack-based lowerer rejects (must fail with exit 1, not exit 0)
+add('feature/ecl10-unsupported-constructs', 'ECL_10', full='''
+meta {
+    ecli: [],
+    anim: [],
+}
+void main() {
+  again:
+    goto again;
+}
+void other() {
+    loop { break; }
+}
+''')
+add('feature/ecl10-type-errors', 'ECL_10', full='''
+meta {
+    ecli: [],
+    anim: [],
+}
+void main() {
+    int x = 1.0;
+    float y = 2;
+}
+''')
+# --- lexical and nesting stress (nesting depth up to 256 is part of C04's quantifier)
+deep = 256
+add('feature/deep-paren-nesting', 'ANM_12', main_body='    I0 = %s1%s;\n' % ('(' * deep, ')' * deep))
+add('feature/deep-block-nesting', 'ANM_12', main_body='    %s I0 = 1; %s\n' % ('{ ' * deep, ' }' * deep))
+add('feature/deep-unary-chain', 'ANM_12', main_body='    I0 = %s1;\n    F0 = %s1.0;\n' % ('- ' * deep, '-(' * 128 + ''), )
+add('feature/deep-if-nesting', 'ANM_12', main_body='    %s I1 = 2; %s\n' % ('if (I0 == 0) { ' * 128, ' }' * 128))
+add('feature/deep-binop-chain', 'ANM_12', main_body='    I0 = %s1;\n    I1 = 1%s;\n' % ('1 + ' * 600, ' * (2' * 200 + ')' * 200))
+add('feature/extreme-literals', 'ANM_12', main_body='''
+    I0 = 2147483647;
+    I0 = -2147483648;
+    I0 = 2147483648;
+    I0 = 99999999999999999999;
+    I0 = 0xFFFFFFFF;
+    I0 = 0x100000000;
+    I0 = 0b11111111111111111111111111111111;
+    F0 = 1e38;
+    F0 = 1e39;
+    F0 = 1e999;
+    F0 = 0.000000000000000000000000000000000000000000001;
+    F0 = 340282350000000000000000000000000000000.0;
+    I1 = 1 << 32;
+    I1 = 1 << -1;
+    I1 = 1 >> 999;
+    I1 = -2147483648 / -1;
+    I1 = -2147483648 % -1;
+    ins_99999999999();
+    ins_65536();
+    $REG[99999999999] = 1;
+''')
+add('feature/mapfile-extreme-keys', 'ANM_12', mapfiles=['''!anmmap
+!ins_names
+99999999999 tooBig
+-99999999999 tooSmall
+2147483648 justOver
+-1 negative
+0x10 hexKey
+!ins_signatures
+65536 S
+99999999999 S
+!gvar_names
+99999999999 bigReg
+'''], main_body='    nop();\n')
+
 # --- mission MSG (no source_test coverage): th095 and th125
 add('mission/th095', 'MSG_09', game='th095', compile_args=['--mission'], tags=['--mission'], full='''
 entry {
